@@ -47,7 +47,7 @@ mutual
   theorem extBody_idem (b : Body) : extBody (extBody b) = extBody b := by
     cases b with
     | leaf => simp [extBody]
-    | element e => simp [extBody]
+    | element e => simp only [extBody]; rw [extDesc_idem e]
     | members ms =>
       simp only [extBody]
       rw [extItems_addMarker, extItems_idem ms, addMarker_addMarker]
